@@ -331,7 +331,9 @@ class SimpleOperationExecutor:
         if created_files is not None:
             if created_files.has_norm_cased_file(norm_cased_filename):
                 return True
-            elif created_files.has_norm_cased_dir(norm_cased_filename):
+            elif (created_files.has_norm_cased_dir(norm_cased_filename) or
+                    created_files.removed_norm_cased_file(
+                        norm_cased_filename)):
                 return False
 
         if norm_cased_filename == self._norm_cased_cache_filename:
